@@ -153,23 +153,293 @@ def _truth_under(test, assume):
     return None
 
 
-def paths_of(fnode, assume=None, max_paths=MAX_PATHS):
-    """All paths through the function body.  `assume`: {normalised test text: bool/const}."""
+# ---------------------------------------------------------------------------------------
+# inlining of private helpers (so that "extract a helper" refactorings do not hide a computation)
+# ---------------------------------------------------------------------------------------
+
+# Private helpers of today's tree that rules anchor on by name: they stay opaque calls.  Every
+# other private (leading underscore) repo-local function or method whose body is straight-line /
+# branching code without loops, state writes or in-place writes to its parameters is expanded at
+# the call site: the caller's path forks per returning path of the callee.
+KEEP_OPAQUE = {
+    "_apply", "_apply_transforms", "_batch_logabsdet", "_cascade", "_compute_params", "_coupling_transform",
+    "_coupling_transform_forward", "_coupling_transform_inverse", "_create_lower_upper", "_create_upper",
+    "_elementwise", "_elementwise_forward", "_elementwise_inverse", "_get_input_degrees", "_get_mask_and_degrees",
+    "_initialize", "_load_from_state_dict", "_log_abs_scale", "_log_prob", "_lu_forward_inverse", "_mean", "_permute",
+    "_piecewise_cdf", "_sample", "_scale_and_shift", "_share_across_batch", "_spline", "_transform_dim_multiplier",
+    "_unconstrained_scale_and_shift", "_check_forward_cache", "_check_inverse_cache", "_output_dim_multiplier",
+}  # fmt: skip
+
+_CTX = {"program": None, "index": {}, "depth": 0, "stack": []}
+MAX_INLINE_DEPTH = 4
+
+
+def set_program(program):
+    """Enable helper inlining: resolve callees in this Program."""
+    _CTX["program"] = program
+    idx = {}
+    if program is not None:
+        for f in program.all_functions():
+            idx[id(f.node)] = f
+    _CTX["index"] = idx
+
+
+def _inlinable_body(fi):
+    """No loops / with / try / yield / nested defs; no write through a parameter or self."""
+    node = fi.node
+    a = node.args
+    if a.vararg is not None or a.kwarg is not None:
+        return False
+    params = {x.arg for x in list(a.posonlyargs) + list(a.args) + list(a.kwonlyargs)}
+    for n in ast.walk(node):
+        if n is node:
+            continue
+        if isinstance(n, (ast.For, ast.While, ast.With, ast.Try, ast.Yield, ast.YieldFrom, ast.FunctionDef, ast.Lambda, ast.Global, ast.Nonlocal, ast.Await)):
+            return False
+        tgts = []
+        if isinstance(n, ast.Assign):
+            tgts = n.targets
+        elif isinstance(n, (ast.AugAssign, ast.AnnAssign)):
+            tgts = [n.target]
+        for t in tgts:
+            for sub in ast.walk(t):
+                if isinstance(sub, (ast.Subscript, ast.Attribute)):
+                    root = sub
+                    while isinstance(root, (ast.Subscript, ast.Attribute)):
+                        root = root.value
+                    if isinstance(root, ast.Name) and root.id in params:
+                        return False
+            if isinstance(n, ast.AugAssign) and isinstance(t, ast.Name) and t.id in params:
+                return False  # x += ... on a parameter may write the caller's tensor
+        if isinstance(n, ast.Call) and isinstance(n.func, ast.Attribute) and n.func.attr.endswith("_") and not n.func.attr.endswith("__"):
+            root = n.func.value
+            while isinstance(root, (ast.Subscript, ast.Attribute, ast.Call)):
+                root = root.func if isinstance(root, ast.Call) else root.value
+            if isinstance(root, ast.Name) and root.id in params:
+                return False
+    rets = [n for n in ast.walk(node) if isinstance(n, ast.Return)]
+    return bool(rets)
+
+
+def _only_raises_body(fi):
+    body = [st for st in fi.node.body if not (isinstance(st, ast.Expr) and isinstance(st.value, ast.Constant))]
+    return bool(body) and all(isinstance(st, ast.Raise) for st in body)
+
+
+def _resolve_helper(call, caller):
+    """FuncInfo of an inlinable private helper called by `call` from function `caller`, or None."""
+    prog = _CTX["program"]
+    if prog is None or caller is None:
+        return None
+    f = call.func
+    target = None
+    if isinstance(f, ast.Attribute) and isinstance(f.value, ast.Name) and f.value.id in ("self", "cls") and caller.cls is not None:
+        name = f.attr
+        if not name.startswith("_") or name.startswith("__") or name in KEEP_OPAQUE:
+            return None
+        target = caller.cls.lookup_method(name)
+        if target is None:
+            return None
+        # dynamic dispatch: a subclass of the caller's class may override the helper
+        for sub in caller.cls.all_subclasses():
+            if sub is not caller.cls and name in sub.methods:
+                return None
+    elif isinstance(f, ast.Name):
+        name = f.id
+        if not name.startswith("_") or name.startswith("__") or name in KEEP_OPAQUE:
+            return None
+        r = prog.resolve_name(caller.module, name)
+        target = r if hasattr(r, "node") and hasattr(r, "params") else None
+    elif isinstance(f, ast.Attribute):
+        name = f.attr
+        if not name.startswith("_") or name.startswith("__") or name in KEEP_OPAQUE:
+            return None
+        try:
+            r = prog.resolve_expr(caller.module, f)
+        except Exception:
+            r = None
+        target = r if hasattr(r, "node") and hasattr(r, "params") else None
+    if target is None or getattr(target, "is_lambda", False) or target.is_property:
+        return None
+    if id(target.node) in _CTX["stack"] or _only_raises_body(target) or not _inlinable_body(target):
+        return None
+    return target
+
+
+def _bind_args(call, target):
+    """{param: argument expression} or None when the call does not fit the signature simply."""
+    params = target.params()
+    names = [n for n, _ in params]
+    env = {}
+    if any(isinstance(a, ast.Starred) for a in call.args) or any(k.arg is None for k in call.keywords):
+        return None
+    if len(call.args) > len(names):
+        return None
+    for n, a in zip(names, call.args):
+        env[n] = a
+    for k in call.keywords:
+        if k.arg not in names or k.arg in env:
+            return None
+        env[k.arg] = k.value
+    for n, d in params:
+        if n not in env:
+            if d is None:
+                return None
+            env[n] = clone(d)
+    return env
+
+
+class _ReplaceNode(ast.NodeTransformer):
+    def __init__(self, old, new):
+        self.old = old
+        self.new = new
+
+    def visit(self, node):
+        if node is self.old:
+            return self.new
+        return self.generic_visit(node)
+
+
+def _first_helper_call(expr, caller):
+    """Innermost-first inlinable call inside an (expanded) expression."""
+    found = []
+
+    seen = set()
+
+    def uw(n):
+        # expanded expressions are DAGs: visit each object once
+        if id(n) in seen:
+            return
+        seen.add(id(n))
+        if isinstance(n, (ast.Lambda, ast.ListComp, ast.GeneratorExp, ast.SetComp, ast.DictComp)):
+            return
+        for c in ast.iter_child_nodes(n):
+            if found:
+                return
+            uw(c)
+        if found:
+            return
+        if isinstance(n, ast.Call) and not getattr(n, "_noinline", False):
+            t = _resolve_helper(n, caller)
+            env = _bind_args(n, t) if t is not None else None
+            if env is not None:
+                found.append((n, t, env))
+            else:
+                n._noinline = True
+
+    uw(expr)
+    return found[0] if found else None
+
+
+def _inlined(expr, p, done, assume, max_paths, caller):
+    """[(path, expression)]: `expr` with every inlinable helper call replaced by the helper's
+    returned expression; the path forks per returning path of the helper (its conditions and
+    effects are added); a helper path that raises ends the caller's path as a raise."""
+    if expr is None or caller is None or _CTX["program"] is None or len(_CTX["stack"]) >= MAX_INLINE_DEPTH:
+        return [(p, expr)]
+    hit = _first_helper_call(expr, caller)
+    if hit is None:
+        return [(p, expr)]
+    call, target, argenv = hit
+    sub = p.fork()
+    sub.env = dict(argenv)
+    sub_done = []
+    _CTX["stack"].append(id(target.node))
+    try:
+        live = _run_block(target.node.body, [sub], sub_done, assume, max_paths, target)
+    finally:
+        _CTX["stack"].pop()
+    for q in live:  # fell off the end: returns None
+        q.kind = "return"
+        q.ret = ast.Constant(value=None)
+        sub_done.append(q)
+    out = []
+    multi = len(sub_done) > 1
+    for q in sub_done:
+        if q.kind == "raise":
+            q.env = dict(p.env)
+            done.append(q)
+            continue
+        q.env = dict(p.env)
+        q.kind = None
+        ret = q.ret
+        q.ret = None
+        e2 = _ReplaceNode(call, ret).visit(clone_keep(expr, call) if multi else expr) if expr is not call else ret
+        out.extend(_inlined(e2, q, done, assume, max_paths, caller))
+    return out
+
+
+def clone_keep(expr, keep):
+    """clone(expr) but the node `keep` (and its subtree) is shared, so that it can be found again."""
+    if expr is keep:
+        return expr
+    if isinstance(expr, ast.AST):
+        new = expr.__class__()
+        for f in expr._fields:
+            if hasattr(expr, f):
+                setattr(new, f, clone_keep(getattr(expr, f), keep))
+        for a in ("lineno", "col_offset", "end_lineno", "end_col_offset"):
+            if hasattr(expr, a):
+                setattr(new, a, getattr(expr, a))
+        if getattr(expr, "_noinline", False):
+            new._noinline = True
+        return new
+    if isinstance(expr, list):
+        return [clone_keep(x, keep) for x in expr]
+    return expr
+
+
+_STRUCTURAL_CALLS = {"dim", "ndimension", "size", "len", "isinstance", "numel", "is_floating_point"}
+
+
+def _structural_test(e):
+    """A test over shapes / ranks / identities only: its value cannot change along a path."""
+    n = 0
+    for x in uwalk(e):
+        n += 1
+        if n > 60:
+            return False
+        if isinstance(x, ast.Call):
+            f = x.func
+            last = f.attr if isinstance(f, ast.Attribute) else (f.id if isinstance(f, ast.Name) else "")
+            if last not in _STRUCTURAL_CALLS:
+                return False
+        elif not isinstance(x, (ast.Name, ast.Attribute, ast.Constant, ast.Compare, ast.BoolOp, ast.UnaryOp, ast.Subscript, ast.Tuple, ast.List, ast.expr_context, ast.cmpop, ast.boolop, ast.unaryop, ast.BinOp, ast.operator)):
+            return False
+    return True
+
+
+def _already_decided(et, p):
+    """Polarity of an identical structural test taken earlier on this path (a helper inlined
+    into its caller repeats the caller's case distinction: those paths are not forked again)."""
+    if not p.conds or not _structural_test(et):
+        return None
+    t = norm_text(et)
+    for e0, _, pol in p.conds:
+        if _structural_test(e0) and norm_text(e0) == t:
+            return pol
+    return None
+
+
+def paths_of(fnode, assume=None, max_paths=MAX_PATHS, inline=True):
+    """All paths through the function body.  `assume`: {normalised test text: bool/const}.
+    With a Program registered (set_program) private helpers are expanded at their call sites."""
     assume = assume or {}
     start = Path()
     done = []
-    live = _run_block(fnode.body, [start], done, assume, max_paths)
+    caller = _CTX["index"].get(id(fnode)) if inline else None
+    live = _run_block(fnode.body, [start], done, assume, max_paths, caller)
     for p in live:
         p.kind = "fallthrough"
         done.append(p)
     return done
 
 
-def _run_block(stmts, live, done, assume, max_paths):
+def _run_block(stmts, live, done, assume, max_paths, caller=None):
     for st in stmts:
         nxt = []
         for p in live:
-            nxt.extend(_run_stmt(st, p, done, assume, max_paths))
+            nxt.extend(_run_stmt(st, p, done, assume, max_paths, caller))
         live = nxt
         if len(live) + len(done) > max_paths:
             raise AnalysisIncomplete("symbolic expansion: more than %d paths" % max_paths)
@@ -204,7 +474,7 @@ def _assign_target(t, val, raw_val, p):
         _assign_target(t.value, val, raw_val, p)
 
 
-def _run_stmt(st, p, done, assume, max_paths):
+def _run_stmt(st, p, done, assume, max_paths, caller=None):
     if isinstance(st, (ast.Pass, ast.Import, ast.ImportFrom, ast.Global, ast.Nonlocal, ast.Delete)):
         return [p]
     if isinstance(st, ast.FunctionDef):
@@ -226,18 +496,32 @@ def _run_stmt(st, p, done, assume, max_paths):
             p.effects.append(("yield", st, expand(v.value, p.env) if v.value is not None else None))
         return [p]
     if isinstance(st, ast.Assign):
-        val = expand(st.value, p.env)
-        if p.in_loop:
-            pass
-        for t in st.targets:
-            _assign_target(t, val, st.value, p)
-        return [p]
+        out = []
+        for p2, val in _inlined(expand(st.value, p.env), p, done, assume, max_paths, caller):
+            for t in st.targets:
+                _assign_target(t, val, st.value, p2)
+            out.append(p2)
+        return out
     if isinstance(st, ast.AnnAssign):
-        if st.value is not None:
-            _assign_target(st.target, expand(st.value, p.env), st.value, p)
-        return [p]
+        if st.value is None:
+            return [p]
+        out = []
+        for p2, val in _inlined(expand(st.value, p.env), p, done, assume, max_paths, caller):
+            _assign_target(st.target, val, st.value, p2)
+            out.append(p2)
+        return out
     if isinstance(st, ast.AugAssign):
-        val = expand(st.value, p.env)
+        alts = _inlined(expand(st.value, p.env), p, done, assume, max_paths, caller)
+        if len(alts) > 1:
+            out = []
+            for p2, v2 in alts:
+                st2 = ast.AugAssign(target=st.target, op=st.op, value=st.value)
+                ast.copy_location(st2, st)
+                st2._preval = v2
+                out.extend(_run_stmt(st2, p2, done, assume, max_paths, None))
+            return out
+        p, val = alts[0]
+        val = getattr(st, "_preval", val)
         t = st.target
         if isinstance(t, ast.Name):
             old = p.env.get(t.id, ast.Name(id=t.id, ctx=ast.Load()))
@@ -255,10 +539,12 @@ def _run_stmt(st, p, done, assume, max_paths):
             p.effects.append(("aug", st, expand(t, p.env), val))
         return [p]
     if isinstance(st, ast.Return):
-        p.kind = "return"
-        p.ret = expand(st.value, p.env) if st.value is not None else ast.Constant(value=None)
-        p.ret_node = st
-        done.append(p)
+        val = expand(st.value, p.env) if st.value is not None else ast.Constant(value=None)
+        for p2, v2 in _inlined(val, p, done, assume, max_paths, caller):
+            p2.kind = "return"
+            p2.ret = v2
+            p2.ret_node = st
+            done.append(p2)
         return []
     if isinstance(st, ast.Raise):
         p.kind = "raise"
@@ -271,16 +557,19 @@ def _run_stmt(st, p, done, assume, max_paths):
         return [p]
     if isinstance(st, ast.If):
         decided = _truth_under(st.test, assume)
-        et = expand(st.test, p.env)
         out = []
-        if decided is not False:
-            p1 = p.fork() if decided is None else p
-            p1.conds.append((et, st.test, True))
-            out.extend(_run_block(st.body, [p1], done, assume, max_paths))
-        if decided is not True:
-            p2 = p.fork() if decided is None else p
-            p2.conds.append((et, st.test, False))
-            out.extend(_run_block(st.orelse, [p2], done, assume, max_paths))
+        for p0, et in _inlined(expand(st.test, p.env), p, done, assume, max_paths, caller):
+            dec = decided
+            if dec is None:
+                dec = _already_decided(et, p0)
+            if dec is not False:
+                p1 = p0.fork() if dec is None else p0
+                p1.conds.append((et, st.test, True))
+                out.extend(_run_block(st.body, [p1], done, assume, max_paths, caller))
+            if dec is not True:
+                p2 = p0.fork() if dec is None else p0
+                p2.conds.append((et, st.test, False))
+                out.extend(_run_block(st.orelse, [p2], done, assume, max_paths, caller))
         return out
     if isinstance(st, (ast.For, ast.While)):
         p.in_loop += 1
@@ -291,17 +580,28 @@ def _run_stmt(st, p, done, assume, max_paths):
             for n in ast.walk(st.target):
                 if isinstance(n, ast.Name):
                     p.env.pop(n.id, None)
-        live = _run_block(st.body, [p], done, assume, max_paths)
+        live = _run_block(st.body, [p], done, assume, max_paths, caller)
         for q in live:
             q.in_loop -= 1
         # zero-iteration path is merged optimistically: rules that care look at ("for", ...) effects
         return live
     if isinstance(st, ast.With):
         p.effects.append(("with", st, [expand(i.context_expr, p.env) for i in st.items]))
-        return _run_block(st.body, [p], done, assume, max_paths)
+        return _run_block(st.body, [p], done, assume, max_paths, caller)
     if isinstance(st, ast.Try):
         raise AnalysisIncomplete("try statement at line %d" % st.lineno)
     raise AnalysisIncomplete("unsupported statement %s at line %d" % (type(st).__name__, getattr(st, "lineno", 0)))
+
+
+def body_expansion(stmts):
+    """{name: expression} after executing a straight-line statement list from an empty
+    environment (every name read before it is written stays a free Name); None when the
+    statements branch."""
+    done = []
+    live = _run_block(stmts, [Path()], done, {}, MAX_PATHS, None)
+    if len(live) != 1 or done:
+        return None
+    return live[0].env
 
 
 def strip_stores(e):
